@@ -39,6 +39,14 @@ class H(desper.Handle):
     def __bool__(self):     # a stored handle may be falsy: presence, not truth
         return False
 
+    # handles may define value equality (two handles for one file compare
+    # equal): the tree is about objects, equal handles are still two handles
+    def __eq__(self, other):
+        return isinstance(other, H)
+
+    def __hash__(self):
+        return 7
+
     def load(self):
         return Res(self.label)
 
@@ -78,9 +86,11 @@ class Ctx:
 class TreeDriver:
     def __init__(self, name, value_kinds, rich_depth=1, layer_targets=('',),
                  clear_targets=('', 'a'), coarse=True, max_layers=2,
-                 key_depth=3, aliases=0, names=NAMES, reassign=False):
+                 key_depth=3, aliases=0, names=NAMES, reassign=False,
+                 remap=False):
         self.aliases = aliases
         self.reassign = reassign
+        self.remap = remap
         all_keys = tuple('/'.join(p) for n in (1, 2, 3)
                          for p in itertools.product(names, repeat=n))
         self.all_keys = all_keys
@@ -122,6 +132,8 @@ class TreeDriver:
         ctx.aliased = 0
         ctx.replaced = None     # (key, model handle) last overwritten
         ctx.reassigned = 0
+        ctx.replaced_map = None     # (model map, real map) last overwritten
+        ctx.remapped = 0
         return ctx
 
     # -- values ------------------------------------------------------------
@@ -177,6 +189,8 @@ class TreeDriver:
                             ops.append(('alias', src, dst))
         if self.reassign and ctx.replaced is not None and ctx.reassigned < 1:
             ops.append(('reassign',))
+        if self.remap and ctx.replaced_map is not None and ctx.remapped < 1:
+            ops.extend(('remap', k) for k in self.keys)
         for t in self.clear_targets:
             if t == '' or isinstance(ctx.model.visible(t), MM):
                 ops.append(('clear', t))
@@ -195,8 +209,19 @@ class TreeDriver:
     def apply(self, ctx, op):
         kind = op[0]
         ctx.detached = []
-        if kind in ('set', 'alias', 'reassign'):
-            if kind == 'reassign':
+        if kind in ('set', 'alias', 'reassign', 'remap'):
+            if kind == 'remap':
+                # a map that was overwritten (it is no longer part of the
+                # tree, its own back-links may be stale) is stored again,
+                # anywhere: the latest assignment wins, nothing else moves
+                _, key = op
+                mv, real, _ = ctx.replaced_map
+                mv.obj = real
+                vkind = 'remap'
+                ctx.replaced_map = None
+                ctx.remapped += 1
+                ctx.hits['overwritten_map_assigned_elsewhere'] += 1
+            elif kind == 'reassign':
                 # the very object that was overwritten at this key is
                 # assigned there again: the latest assignment wins
                 key, mv = ctx.replaced
@@ -216,6 +241,9 @@ class TreeDriver:
                 _, key, vkind = op
                 real, mv = self.make(ctx, vkind)
             parts = key.split('/')
+            before = self._lookup(ctx, key)
+            before_real = (ctx.root.get(key) if isinstance(before, MM)
+                           else None)
             try:
                 ctx.root[key] = real
             except Exception as exc:
@@ -254,6 +282,10 @@ class TreeDriver:
                 if last in mm.maps:
                     ctx.hits['map_replaces_subtree'] += 1
                 mm.maps[last] = mv
+            if (kind == 'set' and isinstance(before, MM) and self.remap
+                    and ctx.remapped < 1
+                    and before_real is not None and before is not mv):
+                ctx.replaced_map = (before, before_real, key)
         elif kind == 'clear':
             real, mm = self._target(ctx, op[1])
             names = set(mm.maps) | {n for la in mm.layers for n in la}
@@ -432,6 +464,8 @@ class TreeDriver:
             for name, child in mm.maps.items():
                 collect(child, f'{path}/{name}')
         collect(ctx.model, '')
+        if self.remap and ctx.replaced_map is not None:
+            collect(ctx.replaced_map[0], '<spare>')
 
         def namer(o):
             n = names.get(id(o))
@@ -440,9 +474,18 @@ class TreeDriver:
             if isinstance(o, (H, Res)):
                 return '~' + o.label
             return None
+        spare = None
+        if self.remap and ctx.replaced_map is not None:
+            # the overwritten map that may still be stored again: part of
+            # the state (with its own content and stale back-links)
+            # (content only; where it was overwritten stands for its stale
+            # back-link, which may name a map that is itself gone by now)
+            spare = (canon((ctx.replaced_map[1],), namer, coarse=self.coarse,
+                           skip_attrs=('parent',)), ctx.replaced_map[2])
         return (canon((ctx.root,), namer, coarse=self.coarse),
                 ctx.replaced[0] if (self.reassign and ctx.replaced) else None,
-                ctx.reassigned if self.reassign else 0)
+                ctx.reassigned if self.reassign else 0,
+                spare, ctx.remapped if self.remap else 0)
 
 
 def _name_of(mm, node):
@@ -474,6 +517,12 @@ def drivers(tier):
                 layer_targets=('',), clear_targets=('',), key_depth=2,
                 names=('a',), reassign=True),
                 dict(max_states=300000, time_budget=200)),
+            # a map that was overwritten is stored again somewhere else
+            'remap': (TreeDriver(
+                'remap', ('handle', 'empty'), rich_depth=0,
+                layer_targets=(), clear_targets=('',), key_depth=2,
+                remap=True),
+                dict(max_states=300000, time_budget=200)),
             # empty path components are legal names too ('/x', 'x/', '')
             'empty-names': (TreeDriver(
                 'empty-names', ('handle', 'empty'), rich_depth=0,
@@ -490,6 +539,11 @@ def drivers(tier):
             layer_targets=('',), clear_targets=('', 'a'), key_depth=2,
             names=('a', 'b'), reassign=True, max_layers=2),
             dict(max_states=1000000, time_budget=900)),
+        'remap': (TreeDriver(
+            'remap', ('handle', 'empty', 'populated'), rich_depth=1,
+            layer_targets=('',), clear_targets=('', 'a'), key_depth=2,
+            remap=True),
+            dict(max_states=1500000, time_budget=900)),
         'empty-names': (TreeDriver(
             'empty-names', ('handle', 'empty', 'layered'), rich_depth=1,
             layer_targets=('',), clear_targets=('',), key_depth=2,
@@ -527,6 +581,7 @@ def run(tier, rep):
                      map_over_layered_handle=1, clear=1, clear_layered=1,
                      same_handle_at_two_places=1,
                      overwritten_object_assigned_again=1,
+                     overwritten_map_assigned_elsewhere=1,
                      add_layer=1, handle_over_lower_layer=1)
     for name, (driver, kw) in drivers(tier).items():
         kernel.explore(driver, rep, part=name, params=driver.params(), **kw)
